@@ -169,7 +169,7 @@ def op_wrappers(skip):
         def emit(nm, ret, params, au_body, ref_body):
             if "%s/%s" % (nm, r) in skip:
                 return
-            an, rn = "au_%s_%d" % (nm, k), "ref_%s_%d" % (nm, k)
+            an, rn = "au_%s_%d" % (nm.replace(":", "__"), k), "ref_%s_%d" % (nm.replace(":", "__"), k)
             lines.append('extern "C" %s %s(%s) { %s }' % (ret, an, params, au_body))
             lines.append('extern "C" %s %s(%s) { %s }' % (ret, rn, params, ref_body))
             pairs.append(("%s/%s" % (nm, r), an, rn))
@@ -193,6 +193,19 @@ def op_wrappers(skip):
                  "auto q = %s(a); return (%s).in(%s{});" % (mq, ex, U), "return %s;" % raw)
         for nm, op in CMP_OPS:
             emit(nm, "bool", "%s a, %s b" % (R, R), "return %s(a) %s %s(b);" % (mq, op, mq), "return a %s b;" % op)
+        # scalars of ANOTHER type than the rep: the raw operator brings both operands to their
+        # common type, computes there and (for op=) narrows the result - never the scalar first
+        others = [t for t in (("int", "unsigned", "int64_t", "uint64_t", "uint8_t", "int16_t") if isint else ("double", "float", "int", "int64_t")) if model.canon(t) != model.canon(r)]
+        for S in others:
+            tag = S.replace(" ", "_")
+            if isint == model.is_int(S) or not isint:
+                for nm, op in COMPOUND_S:
+                    emit("%s:%s" % (nm, tag), R, "%s a, %s s" % (R, S), "auto q = %s(a); q %s s; return q.in(%s{});" % (mq, op, U),
+                         "%s x = a; x %s s; return x;" % (R, op))
+            for nm, ex in SCALAR:
+                raw = ex.replace("q", "a")
+                emit("%s:%s" % (nm, tag), "decltype(%s{} * %s{})" % (R, S), "%s a, %s s" % (R, S),
+                     "auto q = %s(a); return (%s).in(%s{});" % (mq, ex, U), "return %s;" % raw)
         k += 1
     return "\n".join(lines) + "\n", pairs
 
